@@ -13,9 +13,19 @@ def sh(*a, **k):
     return subprocess.run(a, capture_output=True, text=True, env=ENV, **k)
 
 def main():
+    global SCR, VERIF_OUT
     names = set(sys.argv[1:])
     build = "--build" in names
     names.discard("--build")
+    # --shard=i/n : run every n-th mutant starting at i, in a scratch tree of its own (parallel runs)
+    shard = None
+    for a in list(names):
+        if a.startswith("--shard="):
+            i, n = a[len("--shard="):].split("/")
+            shard = (int(i), int(n))
+            names.discard(a)
+    tag = f"-{shard[0]}of{shard[1]}" if shard else f"-{os.getpid()}"
+    SCR, VERIF_OUT = SCR + tag, VERIF_OUT + tag
     os.makedirs("/root/scratch", exist_ok=True)
     sh("git", "-C", "/repo", "worktree", "remove", "--force", SCR)
     r = sh("git", "-C", "/repo", "worktree", "add", "--detach", SCR, "HEAD")
@@ -25,8 +35,10 @@ def main():
     shutil.copy("/repo/larking/verif_contracts.go", SCR + "/larking/verif_contracts.go")
     bad = 0
     try:
-        for m in MUTANTS:
+        for k, m in enumerate(MUTANTS):
             if names and m["name"] not in names:
+                continue
+            if shard and k % shard[1] != shard[0]:
                 continue
             path = os.path.join(SCR, m["file"])
             src = open(path).read()
